@@ -89,6 +89,17 @@ fn main() {
             if id.len() == 3 && id.starts_with('C') {
                 crash::install(&id);
             }
+            // last line of defence against a check that hangs (e.g. a library thread stuck in a way the
+            // harness does not recognise): never a verdict, but never an endless run either
+            {
+                let limit = if tier == "thorough" { 5 * 3600 } else { 25 * 60 };
+                let idc = id.clone();
+                std::thread::spawn(move || {
+                    std::thread::sleep(std::time::Duration::from_secs(limit));
+                    eprintln!("MACHINERY FAILURE: check {idc} exceeded its watchdog limit of {limit} s");
+                    std::process::exit(2);
+                });
+            }
             daemonh::install_panic_watch();
             let mut rep = Report::new(&id, &tier, level_of(&id));
             let res = std::panic::catch_unwind(std::panic::AssertUnwindSafe(|| run_check(&id, &mut rep)));
